@@ -1,7 +1,10 @@
 //! vcheck: one subcommand per property. `vcheck <Cxx> --tier quick|thorough [--only <key>]`
 mod common;
+mod p_bytes;
 mod p_derived;
 mod p_evo;
+mod p_misc;
+mod p_varint;
 mod p_values;
 
 use bridge::err::CountingAlloc;
@@ -26,6 +29,14 @@ fn main() {
     bridge::install_panic_hook();
     let code = match prop.as_str() {
         "C01" | "C04" | "C07" | "C08" | "C15" => p_values::run(&prop, &tier, only),
+        "C05" | "C06" => match args.iter().position(|a| a == "--child-out") {
+            Some(i) => p_bytes::child(&prop, &tier, only, &args[i + 1]),
+            None => p_bytes::run(&prop, &tier, only),
+        },
+        "C11" => p_varint::run(&tier, only),
+        "C12" => p_misc::run_c12(&tier, only),
+        "C16" => p_misc::run_c16(&tier, only),
+        "C17" => p_misc::run_c17(&tier, only),
         "C03" => p_evo::run(&tier, only),
         "C02" => p_derived::run_c02(&tier, only),
         "C13" => p_derived::run_c13(&tier, only),
